@@ -243,6 +243,20 @@ pub fn run(ctx: &Ctx) {
         v
     }, check_exact_edge);
 
+    let bl_step = ctx.tier.pick(3usize, 1usize);
+    ctx.exhaustive("bilinearity_zero_limb_scalars", "e([b]P1,[a]P2) == e(P1,P2)^(ab) inside the library with (a, b) = (s, 1) and (1, s) for scalars s that have an all-zero 64-bit limb below a non-zero limb (every 3rd pattern in the quick tier)", move || {
+        let one = gen::hex32(&BigUint::one());
+        let mut v = Vec::new();
+        for (i, k) in gen::zero_limb_scalars().into_iter().enumerate() {
+            if i % bl_step != 0 {
+                continue;
+            }
+            v.push(Bilin { a: gen::hex32(&k), b: one.clone() });
+            v.push(Bilin { a: one.clone(), b: gen::hex32(&k) });
+        }
+        v
+    }, check_bilinear);
+
     ctx.generated("exact_generated", "proptest (a, b, Z_P, Z_Q): library pairing == reference pairing, all 384 bytes", ctx.tier.pick(1_500, 20_000), || {
         (scalar(), scalar(), zrep()).prop_map(|(a, b, (zp, zq0, zq1))| PairCase { a, b, zp, zq0, zq1 })
     }, check_exact);
